@@ -11,7 +11,7 @@
 // The executable's operator new / delete never reuse a block (freed blocks are poisoned), so an
 // address identifies a block for the whole case, and double deletes are counted.
 //
-//   c13_move --seed S --first A --last B [--batch N]
+//   c13_move --seed S --first A --last B [--batch N] [--cpu SECONDS per batch]
 //
 // one line per case:
 //   mv <id> <op> <params…> | pre <objects> | post <objects> | live <k> b… | faults <n> | exc <class|-> [| copy <objects>]
@@ -363,8 +363,9 @@ static void one_case(Rng& g, long idn) {
   case 0: {   // Swapping_Vector<Constraint>: reserve / resize / erase(first,last) / clear
     Constraint_System cs = rnd_cs(g, n, nnc, 6);
     Swapping_Vector<Constraint>& v = cs.sys.rows;
-    int what = (int) g.below(4);
+    int what = (int) g.below(6);
     size_t sz = v.size();
+    if (what >= 4 && sz == 0) what = 1;
     if (what == 0) { size_t c = v.capacity() + g.below(3) * 3; if (g.chance(1, 4)) c = g.below((unsigned) v.capacity() + 1);
       Case k(id, "sv_reserve " + std::to_string(c)); k.pre(); put_V(k.o, v); GUARDED(v.reserve(c)); k.post(); put_V(k.o, v); k.finish(exc); }
     else if (what == 1) { size_t c = g.below((unsigned) sz + 12);
@@ -372,6 +373,11 @@ static void one_case(Rng& g, long idn) {
     else if (what == 2) { size_t a = g.below((unsigned) sz + 1), b = a + g.below((unsigned) (sz - a) + 1);
       Case k(id, "sv_erase " + std::to_string(a) + " " + std::to_string(b)); k.pre(); put_V(k.o, v);
       GUARDED(v.erase(v.begin() + a, v.begin() + b)); k.post(); put_V(k.o, v); k.finish(exc); }
+    else if (what >= 4) {   // erase(iterator): every position (first, middle, last)
+      size_t a = g.below((unsigned) sz);
+      Case k(id, "sv_erase_one " + std::to_string(a)); k.pre(); put_V(k.o, v);
+      size_t ret = (size_t) -1;
+      GUARDED(ret = (size_t) (v.erase(v.begin() + a) - v.begin())); k.post(); put_V(k.o, v); k.o << " " << ret; k.finish(exc); }
     else { Case k(id, "sv_clear"); k.pre(); put_V(k.o, v); GUARDED(v.clear()); k.post(); put_V(k.o, v); k.finish(exc); }
     break; }
   case 1: {   // Swapping_Vector m_swap / swap, also with itself
@@ -533,5 +539,5 @@ int main(int argc, char** argv) {
       J.line("mbegin " + std::to_string(i));
       one_case(g, i);
     }
-  }, 60);
+  }, (int) pplv::arg_long(argc, argv, "--cpu", 5));
 }
